@@ -21,7 +21,7 @@ COQ = os.path.join(VERIF, "coq")
 GEN = os.path.join(COQ, "Gen")
 BUILD = os.path.join(VERIF, "build")
 OUT = os.path.join(VERIF, "out")
-NPROC = os.cpu_count() or 4
+NPROC = int(os.environ.get("VERIF_NPROC") or os.cpu_count() or 4)
 
 ALLOWED_AXIOMS = set()  # the development is expected to be closed
 
